@@ -39,7 +39,11 @@ func (m *Mutex) Unlock() {
 
 func (m *Mutex) TryLock() bool {
 	if e := vsched.Active(); e != nil {
-		panic("vsync: TryLock is not modelled")
+		if e.TryLock(m) {
+			m.sim = true
+			return true
+		}
+		return false
 	}
 	return m.real.TryLock()
 }
@@ -79,6 +83,20 @@ func (m *RWMutex) RUnlock() {
 		return
 	}
 	m.real.RUnlock()
+}
+
+func (m *RWMutex) TryLock() bool {
+	if e := vsched.Active(); e != nil {
+		return e.TryLock(m)
+	}
+	return m.real.TryLock()
+}
+
+func (m *RWMutex) TryRLock() bool {
+	if e := vsched.Active(); e != nil {
+		return e.TryRLock(m)
+	}
+	return m.real.TryRLock()
 }
 
 func (m *RWMutex) RLocker() Locker { return (*rlocker)(m) }
